@@ -49,6 +49,7 @@ type vfc06Case struct {
 	Buf      int
 	Timeout  time.Duration
 	Delays   bool
+	LayoutID string
 }
 
 func (c *vfc06Case) key() string {
@@ -60,7 +61,7 @@ func (c *vfc06Case) key() string {
 	for _, l := range c.Layout {
 		ns = append(ns, fmt.Sprint(len(l)))
 	}
-	return fmt.Sprintf("frames=%s faults=%s strategy=%s retrieval=%s buf=%d timeout=%s delays=%v", strings.Join(ns, ","), strings.Join(fs, ","), c.Strategy, c.Retr, c.Buf, c.Timeout, c.Delays)
+	return fmt.Sprintf("layout=%s frames=%s faults=%s strategy=%s retrieval=%s buf=%d timeout=%s delays=%v", c.LayoutID, strings.Join(ns, ","), strings.Join(fs, ","), c.Strategy, c.Retr, c.Buf, c.Timeout, c.Delays)
 }
 
 func (c *vfc06Case) witness() map[string]any {
@@ -118,7 +119,10 @@ func vfc06RandLayout(rng *rand.Rand, stores int) [][]vfc03Frame {
 // vfc06Points lists the failure points of one store streaming n frames.
 func vfc06Points(n int, reduced bool) []vfc06Fault {
 	if reduced {
-		ps := []vfc06Fault{{vfc03FaultOpen, 0}, {vfc03FaultRecv, 0}, {vfc03FaultRecv, n}, {vfc03FaultBlock, 0}}
+		ps := []vfc06Fault{{vfc03FaultOpen, 0}, {vfc03FaultRecv, 0}, {vfc03FaultBlock, 0}}
+		if n >= 1 {
+			ps = append(ps, vfc06Fault{vfc03FaultRecv, n})
+		}
 		if n >= 2 {
 			ps = append(ps, vfc06Fault{vfc03FaultRecv, n / 2})
 		}
@@ -170,7 +174,7 @@ func vfc06FaultVectors(layout [][]vfc03Frame) [][]vfc06Fault {
 	return out
 }
 
-func vfc06Expand(layout [][]vfc03Frame, vectors [][]vfc06Fault, delays bool) []*vfc06Case {
+func vfc06Expand(id string, layout [][]vfc03Frame, vectors [][]vfc06Fault, delays bool) []*vfc06Case {
 	var out []*vfc06Case
 	for _, v := range vectors {
 		block := false
@@ -189,7 +193,7 @@ func vfc06Expand(layout [][]vfc03Frame, vectors [][]vfc06Fault, delays bool) []*
 				b int
 			}{{EagerRetrieval, 0}, {LazyRetrieval, 1}, {LazyRetrieval, 20}} {
 				for _, to := range timeouts {
-					out = append(out, &vfc06Case{Layout: layout, Faults: v, Strategy: strat, Retr: rc.r, Buf: rc.b, Timeout: to, Delays: delays})
+					out = append(out, &vfc06Case{Layout: layout, Faults: v, Strategy: strat, Retr: rc.r, Buf: rc.b, Timeout: to, Delays: delays, LayoutID: id})
 				}
 			}
 		}
@@ -342,15 +346,15 @@ func TestVF_C06(t *testing.T) {
 	var cases []*vfc06Case
 	for _, n := range [][]int{{3}, {2, 3}, {2, 3, 2}} {
 		l := vfc06FixedLayout(n)
-		cases = append(cases, vfc06Expand(l, vfc06FaultVectors(l), false)...)
+		cases = append(cases, vfc06Expand("fixed", l, vfc06FaultVectors(l), false)...)
 	}
 	if r.Thorough() {
 		l := vfc06FixedLayout([]int{2, 3, 2, 1})
-		cases = append(cases, vfc06Expand(l, vfc06FaultVectors(l), false)...)
+		cases = append(cases, vfc06Expand("fixed", l, vfc06FaultVectors(l), false)...)
 		for k := 0; k < 100; k++ {
 			rng := r.RandS("layout", k)
 			l := vfc06RandLayout(rng, 1+rng.Intn(3))
-			cases = append(cases, vfc06Expand(l, vfc06FaultVectors(l), true)...)
+			cases = append(cases, vfc06Expand(fmt.Sprintf("rand%d", k), l, vfc06FaultVectors(l), true)...)
 		}
 	}
 	r.Extra("enumerated_cases", len(cases))
